@@ -154,24 +154,7 @@ theorem retry_after_failed_delete_repairs (h : List (Owner × Snapshot)) (o : Ow
     simp [liveAfter, List.foldl_append]
   rw [hlive]
   have key : Inv s2.t s2.K (if o = "" then liveAfter (fun _ => none) h
-      else setOwner (liveAfter (fun _ => none) h) o s) := by
-    show Inv ((s0.syncO o s .delFail).1.syncO o s .ok).1.t ((s0.syncO o s .delFail).1.syncO o s .ok).1.K _
-    unfold TK.syncO syncOwner
-    by_cases ho : o = ""
-    · simp only [ho, if_true]; exact hI
-    · simp only [ho, if_false, reduceCtorEq, false_and, true_and]
-      by_cases hd : (emitFor s0.t o s (affected s0.t o s)).dels ≠ []
-      · simp only [hd, not_false_eq_true, if_true, ho, if_false, reduceCtorEq, false_and]
-        exact Inv_retry_after_delFail hI o ho s
-      · simp only [hd, if_false, ho, reduceCtorEq, false_and]
-        -- the first call completed; the retry re-syncs the snapshot now held
-        have h1 := Inv_sync hI o ho s
-        have h2 := Inv_sync h1 o ho s
-        have : setOwner (setOwner (liveAfter (fun _ => none) h) o s) o s =
-            setOwner (liveAfter (fun _ => none) h) o s := by
-          funext x; unfold setOwner; by_cases hx : x = o <;> simp [hx]
-        rw [this] at h2
-        exact h2
+      else setOwner (liveAfter (fun _ => none) h) o s) := Inv_delFail_then_retry hI o s
   exact key.kernel_bit ip i
 
 /-! ## Part 2 — the cache layer, every history of cache operations -/
